@@ -338,6 +338,17 @@ def explore_corpus(job: dict) -> dict:
 
 
 # ---- full-stack level: a real Gateway + send stack + PortTransport, under the conditions that decide which id the gateway has ------
+def _stack_cmds() -> list[dict]:
+    from vf.env import thinfsm as T
+
+    own = [c for c in T.CMDS if c["src"] == T.HGI and c["verb"] in ("RQ", " W") and c["reply"] is not None and c["code"] != "0418"]
+    # impersonating commands (a faked sensor / thermostat asks the controller): each is preceded by a notice FROM the placeholder id,
+    # whose echo carries the radio's real id - recognisable only if the library has learned that id from its signature
+    imp = [{"verb": "RQ", "src": "07:045960", "dst": "01:145038", "code": "10A0", "payload": "00", "reply": "0013880003E8", "imp": True},
+           {"verb": "RQ", "src": "34:092243", "dst": "01:145038", "code": "2309", "payload": "01", "reply": "0107D0", "imp": True}]
+    return own + imp
+
+
 async def _stack_case(loop: Any, case: dict) -> dict:
     """One RQ / W through Gateway.async_send_cmd(wait_for_reply=True). The radio puts its REAL id into the echo; the reply is addressed to
     that id. Varied: how the radio answers the library's signature poll (promptly / slower than the poll period / never), the device
@@ -350,15 +361,19 @@ async def _stack_case(loop: Any, case: dict) -> dict:
     from vf.env import stack, thinfsm as T, vclock
 
     radio = "18:111111"
-    c = T.CMDS[case["cmd"]]
+    c = _stack_cmds()[case["cmd"]]
     own = T.cmd_frame(c)
-    echo, reply = T.echo_frame(c, radio), T.reply_frame(c, radio)
+    echo, reply = T.echo_frame(c, radio), T.reply_frame(c, radio, dst=c["src"] if c.get("imp") else None)
 
     class E(stack.Ether):
         def broadcast(self, frame, origin=None):  # type: ignore[no-untyped-def,override]
             if origin is None:
                 return super().broadcast(frame, None)
             self.air_log.append((self.loop.time(), frame))
+            if " 7FFF " in frame and started[0]:
+                # an impersonation notice (sent from the placeholder ahead of an impersonating command): echoed promptly, with the real id
+                self.loop.call_later(0.005, origin.receive, frame, "000")
+                return
             if " 7FFF " in frame:
                 if case["sig"] != "never":
                     self.loop.call_later(0.005 if case["sig"] == "prompt" else case["sig_latency"], origin.receive, frame, "000")
@@ -376,14 +391,18 @@ async def _stack_case(loop: Any, case: dict) -> dict:
                 self.loop.call_later(d_rep, origin.receive, reply, "045")
 
     eth = E(loop)
+    started = [False]
     known = None
     cfg: dict[str, Any] = {"disable_discovery": True}
     if case["lists"] != "none":
         known = {c["dst"]: {}, "04:056053": {}}
         if case["lists"] == "enforced-gwy-listed":
             known[radio] = {"class": "HGI"}
+        if c["src"] != T.HGI:
+            known[c["src"]] = {}
         cfg["enforce_known_list"] = True
     gwy, port = await stack.make_gateway(eth, gwy_id=radio, config=cfg, known_list=known)
+    started[0] = True
     res: dict[str, Any] = {"active": gwy._transport.get_extra_info("active_gwy")}
     try:
         try:
@@ -419,15 +438,18 @@ def explore_stack(job: dict) -> dict:
 
     quiet_logs()
     col = Collector()
-    cmds = [i for i, c in enumerate(T.CMDS) if c["src"] == T.HGI and c["verb"] in ("RQ", " W") and c["reply"] is not None and c["code"] != "0418"]
+    cmds = list(range(len(_stack_cmds())))
+    imp = {i for i in cmds if _stack_cmds()[i].get("imp")}
     case_st = st.fixed_dictionaries({
-        "level": st.just("stack"), "cmd": st.sampled_from(cmds), "sig": st.sampled_from(("prompt", "slow", "slow", "never")),
+        "level": st.just("stack"), "cmd": st.one_of(st.sampled_from(cmds), st.sampled_from(sorted(imp))), "sig": st.sampled_from(("prompt", "slow", "slow", "never")),
         "sig_latency": st.sampled_from((0.07, 0.12, 0.3, 0.8)), "lists": st.sampled_from(("none", "enforced-gwy-listed", "enforced-gwy-unlisted")),
         "order": st.sampled_from(("echo-first", "reply-first")), "near": st.lists(st.sampled_from(("near-code", "near-verb", "near-src", "near-ctx")), max_size=2)})
 
     def body(case: dict) -> None:
+        if case["cmd"] in imp and case["sig"] == "never":
+            return  # a radio that never echoes a signature leaves the library without its id: the notice's echo cannot be recognised (tallied in C10)
         res, _ = vclock.run(_stack_case, case)
-        col.case(nt=jdump(case), classes=["stack", f"stack-sig:{case['sig']}", f"stack-lists:{case['lists']}", f"stack-order:{case['order']}",
+        col.case(nt=jdump(case), classes=["stack", "stack-cmd:impersonating" if case["cmd"] in imp else "stack-cmd:own", f"stack-sig:{case['sig']}", f"stack-lists:{case['lists']}", f"stack-order:{case['order']}",
                                           "stack-id:known" if res["active"] else "stack-id:unknown"],
                  sample={"case": case, "outcome": res["outcome"], "active": res["active"]})
         for sig, d in judge_stack(case, res):
